@@ -8,6 +8,7 @@ import (
 	"sort"
 	"strings"
 	"sync"
+	"sync/atomic"
 	"time"
 
 	"golang.org/x/tools/go/ssa"
@@ -98,6 +99,8 @@ type Shared struct {
 	queue      [][]Decision
 	visited    [64]visitedShard
 	idle       int
+	idleA      atomic.Int32
+	qlenA      atomic.Int32
 	cond       *sync.Cond
 	done       bool
 	deadline   time.Time
@@ -152,6 +155,7 @@ type Interp struct {
 	fnHash   map[*ssa.Function]uint64
 	fnInfos  map[*ssa.Function]*fnInfo
 	cancelVC []int
+	epoch    int
 	sh       *Shared
 	entry    string
 	property string
@@ -767,16 +771,15 @@ func (ex *Explorer) worker(id int, wg *sync.WaitGroup) {
 		in.solver.Close()
 	}()
 	in.share = func(depth int) bool {
-		if depth > 60 {
+		if depth > 100000 {
 			return false
 		}
-		sh.mu.Lock()
-		defer sh.mu.Unlock()
-		return sh.idle > 0 && len(sh.queue) < sh.idle
+		return sh.idleA.Load() > 0 && sh.qlenA.Load() < sh.idleA.Load()
 	}
 	in.give = func(p []Decision) {
 		sh.mu.Lock()
 		sh.queue = append(sh.queue, p)
+		sh.qlenA.Store(int32(len(sh.queue)))
 		sh.cond.Signal()
 		sh.mu.Unlock()
 	}
@@ -785,6 +788,7 @@ func (ex *Explorer) worker(id int, wg *sync.WaitGroup) {
 		sh.mu.Lock()
 		for len(sh.queue) == 0 && !sh.done {
 			sh.idle++
+			sh.idleA.Store(int32(sh.idle))
 			if sh.idle == ex.workers {
 				sh.done = true
 				sh.cond.Broadcast()
@@ -792,6 +796,7 @@ func (ex *Explorer) worker(id int, wg *sync.WaitGroup) {
 			}
 			sh.cond.Wait()
 			sh.idle--
+			sh.idleA.Store(int32(sh.idle))
 		}
 		if sh.done {
 			sh.mu.Unlock()
@@ -799,6 +804,7 @@ func (ex *Explorer) worker(id int, wg *sync.WaitGroup) {
 		}
 		prefix := sh.queue[len(sh.queue)-1]
 		sh.queue = sh.queue[:len(sh.queue)-1]
+		sh.qlenA.Store(int32(len(sh.queue)))
 		sh.mu.Unlock()
 
 		for prefix != nil {
